@@ -302,6 +302,32 @@ def run(prop, tier):
         if prop == "C19":
             loc_events = validate_locators(scratch, loc_records, res)
 
+        # 3b. C19 on the real mainnet chain across the configured split height
+        if prop == "C19":
+            tp = os.path.join(scratch, "locmain.ndjson")
+            rc, o, err = run_harness(binary, ["locmain", "-repo", os.environ.get("VERIF_REPO", "/repo"), "-out", tp,
+                                              "-from", "556700" if tier == "quick" else "556100", "-to", "556900" if tier == "quick" else "558500"],
+                                     timeout=1800)
+            if rc != 0:
+                raise Infra("locmain failed: " + err[-2000:])
+            trace = open(tp).read()
+            out, st = run_tlc(scratch, "LocatorLinear", "SPECIFICATION Spec\nPOSTCONDITION Accepted\nCHECK_DEADLOCK FALSE\n",
+                              files={"trace.ndjson": trace}, workers=1, timeout=1800, name="locmain")
+            if st.get("error") or "Model checking completed" not in out:
+                raise Infra("LocatorLinear did not complete: %s\n%s" % (st, out[-2000:]))
+            from common import printed_tuples
+            lines = trace.splitlines()
+            loc_events += len(lines)
+            res.sample({"mainnet_locator": json.loads(lines[len(lines) // 2])})
+            for t in printed_tuples(out, "LOCBAD"):
+                rec = json.loads(lines[t[1] - 1])
+                reason = "mainnet chain at tip %s: %s" % (t[3], t[2])
+                f = match_finding("C19", reason)
+                if f:
+                    res.add_known(f, reason)
+                else:
+                    res.violation("locator: %s (max %d)" % (reason, rec["max"]), {"engine": "locmain", "record": rec})
+
         # 4. C18: every tree shape, position and single-element corruption (MerkleProofs.tla) on real proofs
         if prop == "C18":
             maxn = 6 if tier == "quick" else 9
